@@ -1,4 +1,240 @@
-import DS.Model.Expand
+import DS.Lemmas.Expand
+
+/-!
+# C15 — supercell expansion reproduces the same crystal on a larger cell
+
+Model: `DS.Expand.supercell` (DS/Model/Expand.lean), a transcription of
+`expansion/supercell_mod.py` with the lattice formulas of `Lattice.setLatPar`.
+Theorems are over an arbitrary field `K` of characteristic 0 carrying the `Elem` primitives
+(instantiated at `ℝ` at the end); the multipliers are naturals `≥ 1`, passed to the model as the
+integer sequence `[l, m, n]` exactly as the caller passes them.
+
+Every theorem takes the hypothesis `supercell S [l, m, n] = .ok T`; `runs` shows that it is
+satisfiable for every `S` and all multipliers `≥ 1` (non-vacuity).
+-/
 namespace DS.Props.C15
-theorem stub : True := trivial
+open DS DS.Expand
+set_option linter.unusedSectionVars false
+
+section
+variable {K β : Type} [Field K] [CharZero K] [Elem K]
+variable {S T : Stru K β} {l m n : Nat}
+
+theorem cne {x : Nat} (h : 1 ≤ x) : (x : K) ≠ 0 := Nat.cast_ne_zero.2 (by omega)
+
+/-- valid multipliers never raise; the result is the general path (the `(1,1,1)` shortcut returning
+the plain copy agrees with it) -/
+theorem runs (S : Stru K β) (hl : 1 ≤ l) (hm : 1 ≤ m) (hn : 1 ≤ n) :
+    supercell S [(l : Int), (m : Int), (n : Int)] = .ok (supercellGen S l m n) :=
+  supercell_eq S hl hm hn
+
+theorem res (hl : 1 ≤ l) (hm : 1 ≤ m) (hn : 1 ≤ n)
+    (h : supercell S [(l : Int), (m : Int), (n : Int)] = .ok T) : T = supercellGen S l m n := by
+  rw [runs S hl hm hn] at h; cases h; rfl
+
+/-- exactly `l·m·n` images per original atom -/
+theorem length_eq (hl : 1 ≤ l) (hm : 1 ≤ m) (hn : 1 ≤ n)
+    (h : supercell S [(l : Int), (m : Int), (n : Int)] = .ok T) :
+    T.atoms.length = l * m * n * S.atoms.length := by
+  rw [res hl hm hn h]
+  simp only [supercellGen, List.length_flatMap, images, List.length_map, length_ijkList, sum_map_const]
+  ring
+
+/-- grouped by parent atom in the original order; within a parent the images follow the index box
+in the order of the source's list comprehension (`i` slowest, `k` fastest) -/
+theorem grouped (hl : 1 ≤ l) (hm : 1 ≤ m) (hn : 1 ≤ n)
+    (h : supercell S [(l : Int), (m : Int), (n : Int)] = .ok T) :
+    T.atoms = S.atoms.flatMap fun a => (ijkList l m n).map (image l m n a) := by
+  rw [res hl hm hn h]; rfl
+
+/-- the index box is exactly `{0..l-1}×{0..m-1}×{0..n-1}`, each triple once -/
+theorem box_exact (l m n : Nat) :
+    (ijkList l m n).Nodup ∧ (ijkList l m n).length = l * m * n ∧
+      ∀ t : Nat × Nat × Nat, t ∈ ijkList l m n ↔ t.1 < l ∧ t.2.1 < m ∧ t.2.2 < n :=
+  ⟨nodup_ijkList l m n, length_ijkList l m n, fun _ => mem_ijkList⟩
+
+/-- every atom of the result is an image of an original atom under a box translation, and the
+Cartesian position of that image, measured in the *new* lattice, is the Cartesian position of the
+parent in the *old* lattice plus `i·a⃗ + j·b⃗ + k·c⃗` of the old cell vectors -/
+theorem image_cart (hl : 1 ≤ l) (hm : 1 ≤ m) (hn : 1 ≤ n)
+    (h : supercell S [(l : Int), (m : Int), (n : Int)] = .ok T) (b : Atom K β) (hb : b ∈ T.atoms) :
+    ∃ a ∈ S.atoms, ∃ t ∈ ijkList l m n, b = image l m n a t ∧ b.attrs = a.attrs ∧
+      T.cell.cartesian b.xyz =
+        (S.cell.cartesian a.xyz).add ((Vec3.smul (t.1 : K) S.cell.base.row1).add
+          ((Vec3.smul (t.2.1 : K) S.cell.base.row2).add (Vec3.smul (t.2.2 : K) S.cell.base.row3))) := by
+  rw [res hl hm hn h] at hb ⊢
+  simp only [supercellGen, List.mem_flatMap, images, List.mem_map] at hb
+  obtain ⟨a, ha, t, ht, rfl⟩ := hb
+  exact ⟨a, ha, t, ht, rfl, rfl, Expand.image_cart S.cell a (cne hl) (cne hm) (cne hn) t⟩
+
+/-- conversely every parent and every box translation occurs -/
+theorem image_present (hl : 1 ≤ l) (hm : 1 ≤ m) (hn : 1 ≤ n)
+    (h : supercell S [(l : Int), (m : Int), (n : Int)] = .ok T) (a : Atom K β) (ha : a ∈ S.atoms)
+    (t : Nat × Nat × Nat) (ht : t.1 < l ∧ t.2.1 < m ∧ t.2.2 < n) : image l m n a t ∈ T.atoms := by
+  rw [res hl hm hn h]
+  simp only [supercellGen, List.mem_flatMap, images, List.mem_map]
+  exact ⟨a, ha, t, mem_ijkList.2 ht, rfl⟩
+
+/-- an image carries the parent's attribute bundle (element, label, occupancy, displacement
+parameters, extras) unchanged -/
+theorem attrs_kept (a : Atom K β) (t : Nat × Nat × Nat) : (image l m n a t).attrs = a.attrs := rfl
+
+/-- the attribute sequence of the result is each parent's bundle repeated `l·m·n` times, in order -/
+theorem attrs_sequence (hl : 1 ≤ l) (hm : 1 ≤ m) (hn : 1 ≤ n)
+    (h : supercell S [(l : Int), (m : Int), (n : Int)] = .ok T) :
+    T.atoms.map (·.attrs) = S.atoms.flatMap fun a => List.replicate (l * m * n) a.attrs := by
+  rw [res hl hm hn h]
+  simp only [supercellGen, List.map_flatMap, images, List.map_map]
+  refine List.flatMap_congr fun a _ => ?_
+  rw [← length_ijkList l m n]
+  exact List.eq_replicate_iff.2 ⟨by simp, fun b hb => by
+    simp only [List.mem_map, Function.comp] at hb
+    obtain ⟨t, _, rfl⟩ := hb; rfl⟩
+
+/-- the formula of `setLatPar` for `stdbase` at the multiplied lengths is `diag(l,m,n)·stdbase`
+(pure field algebra on the source's expressions `ar`, `cgr`, `sgr`; no side condition) -/
+theorem stdbase_scale (L : Cell K) (l m n : Nat) :
+    (L.scale l m n).stdbase = (diag (l : K) m n).mul L.stdbase := Expand.stdbase_scale L l m n
+
+/-- new cell: lengths multiplied; angles, rotation unchanged; standard and rotated base vectors are
+the original ones multiplied by `l`, `m`, `n` -/
+theorem cell_scaled (hl : 1 ≤ l) (hm : 1 ≤ m) (hn : 1 ≤ n)
+    (h : supercell S [(l : Int), (m : Int), (n : Int)] = .ok T) :
+    T.cell.a = l * S.cell.a ∧ T.cell.b = m * S.cell.b ∧ T.cell.c = n * S.cell.c ∧
+    T.cell.alpha = S.cell.alpha ∧ T.cell.beta = S.cell.beta ∧ T.cell.gamma = S.cell.gamma ∧
+    T.cell.baserot = S.cell.baserot ∧
+    T.cell.stdbase = (diag (l : K) m n).mul S.cell.stdbase ∧
+    T.cell.base.row1 = Vec3.smul (l : K) S.cell.base.row1 ∧
+    T.cell.base.row2 = Vec3.smul (m : K) S.cell.base.row2 ∧
+    T.cell.base.row3 = Vec3.smul (n : K) S.cell.base.row3 := by
+  rw [res hl hm hn h]
+  refine ⟨rfl, rfl, rfl, rfl, rfl, rfl, rfl, Expand.stdbase_scale _ _ _ _, ?_, ?_, ?_⟩ <;>
+    simp only [supercellGen, base_scale, Mat3.mul, diag, Mat3.row1, Mat3.row2, Mat3.row3, Vec3.smul,
+      Vec3.mk.injEq] <;> refine ⟨?_, ?_, ?_⟩ <;> ring
+
+/-- `normbase` (and `recnormbase`) of the new lattice equal those of the old one: under the
+multiplication `base` row i is multiplied and the reciprocal length `ar, br, cr` divided by the
+same multiplier.  Hence the stored `U` components denote the same Cartesian tensor
+`normbaseᵀ·U·normbase`. -/
+theorem normbase_unchanged (hl : 1 ≤ l) (hm : 1 ≤ m) (hn : 1 ≤ n)
+    (h : supercell S [(l : Int), (m : Int), (n : Int)] = .ok T) :
+    T.cell.normbase = S.cell.normbase ∧ T.cell.recnormbase = S.cell.recnormbase ∧
+    ∀ U : Mat3 K, T.cell.normbase.transpose.mul (U.mul T.cell.normbase)
+      = S.cell.normbase.transpose.mul (U.mul S.cell.normbase) := by
+  rw [res hl hm hn h]
+  have e := normbase_scale S.cell (cne hl) (cne hm) (cne hn) (K := K)
+  refine ⟨e, recnormbase_scale S.cell (cne hl) (cne hm) (cne hn), fun U => ?_⟩
+  show (S.cell.scale l m n).normbase.transpose.mul (U.mul (S.cell.scale l m n).normbase) = _
+  rw [e]
+
+/-- reciprocal lengths are divided by the multipliers -/
+theorem reciprocal_scaled (L : Cell K) (l m n : Nat) :
+    (L.scale l m n).ar = L.ar / l ∧ (L.scale l m n).br = L.br / m ∧ (L.scale l m n).cr = L.cr / n :=
+  ⟨ar_scale L l m n, br_scale L l m n, cr_scale L l m n⟩
+
+/-- expanding in two steps gives the same lattice and the same atoms as expanding once by the
+product — as a *rearrangement* (`List.Perm`): the order of the atoms differs in general, see
+`two_step_order_differs` -/
+theorem two_step {T₁ T₂ T₁₂ : Stru K β} {l₁ m₁ n₁ l₂ m₂ n₂ : Nat}
+    (h1 : 1 ≤ l₁) (h2 : 1 ≤ m₁) (h3 : 1 ≤ n₁) (h4 : 1 ≤ l₂) (h5 : 1 ≤ m₂) (h6 : 1 ≤ n₂)
+    (e1 : supercell S [(l₁ : Int), (m₁ : Int), (n₁ : Int)] = .ok T₁)
+    (e2 : supercell T₁ [(l₂ : Int), (m₂ : Int), (n₂ : Int)] = .ok T₂)
+    (e12 : supercell S [((l₁ * l₂ : Nat) : Int), ((m₁ * m₂ : Nat) : Int), ((n₁ * n₂ : Nat) : Int)] = .ok T₁₂) :
+    T₂.cell = T₁₂.cell ∧ T₂.atoms.Perm T₁₂.atoms := by
+  have hp : ∀ {x y : Nat}, 1 ≤ x → 1 ≤ y → 1 ≤ x * y := fun hx hy => Nat.mul_pos hx hy
+  rw [res h1 h2 h3 e1] at e2
+  rw [res h4 h5 h6 e2, res (hp h1 h4) (hp h2 h5) (hp h3 h6) e12]
+  exact ⟨scale_scale _ _ _ _ _ _ _, two_step_atoms S.atoms h1 h2 h3 h4 h5 h6⟩
+
+end
+
+/-! ### rejection (any scalar type) -/
+section
+variable {α β : Type} [Add α] [Mul α] [Div α] [NatCast α]
+
+/-- `supercell` raises iff the multiplier sequence has not exactly 3 entries or some entry is `< 1`;
+what it raises is `ValueError`; otherwise it returns a structure -/
+theorem rejects (S : Stru α β) (mno : List Int) :
+    ((∃ e, supercell S mno = .error e) ↔ (mno.length ≠ 3 ∨ ∃ x ∈ mno, x < 1)) ∧
+    (∀ e, supercell S mno = .error e → e = .ValueError) :=
+  ⟨supercell_error S mno, supercell_error_kind S mno⟩
+
+theorem accepted (S : Stru α β) (mno : List Int) (T : Stru α β) (h : supercell S mno = .ok T) :
+    ∃ l m n : Nat, 1 ≤ l ∧ 1 ≤ m ∧ 1 ≤ n ∧ mno = [(l : Int), (m : Int), (n : Int)] :=
+  supercell_ok_inv S mno T h
+
+/-! ### object identity: fresh result, input untouched (heap model `supercellH`) -/
+
+/-- `supercell` on the heap does not write to any existing atom object: every address alive before
+the call holds the same atom afterwards, and the input structure reads the same -/
+theorem input_untouched (h : Heap α β) (S : HStru α) (mno : List Int) (h' : Heap α β) (T : HStru α)
+    (run : supercellH h S mno = .ok (h', T)) :
+    (∀ r, r < h.atoms.length → h'.atoms[r]? = h.atoms[r]?) ∧
+    ((∀ r ∈ S.refs, r < h.atoms.length) → S.value h' = S.value h) := by
+  unfold supercellH at run
+  split at run
+  · cases run
+  · next T' _ =>
+    cases run
+    refine ⟨fun r hr => List.getElem?_append_left hr, fun hwf => ?_⟩
+    simp only [HStru.value, Heap.read, read_old _ _ _ hwf]
+
+/-- every atom of the result is a newly allocated object: its address is not an address alive
+before the call (in particular none of the input's atoms), the new addresses are pairwise different,
+the new lattice is the result's own value, and reading the result gives the pure model's value -/
+theorem disjoint_from_input (h : Heap α β) (S : HStru α) (mno : List Int) (h' : Heap α β) (T : HStru α)
+    (run : supercellH h S mno = .ok (h', T)) :
+    (∀ r ∈ T.refs, h.atoms.length ≤ r) ∧ (∀ r ∈ S.refs, r < h.atoms.length → r ∉ T.refs) ∧
+    T.refs.Nodup ∧ supercell (S.value h) mno = .ok (T.value h') := by
+  unfold supercellH at run
+  split at run
+  · cases run
+  · next T' hT' =>
+    cases run
+    have hfresh : ∀ r ∈ List.range' h.atoms.length T'.atoms.length, h.atoms.length ≤ r := by
+      intro r hr; rw [List.mem_range'_1] at hr; exact hr.1
+    refine ⟨hfresh, fun r _ hr hr' => ?_, List.nodup_range', ?_⟩
+    · have := hfresh r hr'; omega
+    · rw [hT']
+      simp only [HStru.value, Heap.read, read_fresh]
+
+end
+
+/-! ### instance at ℝ and non-vacuity -/
+
+/-- the scaling lemma at the reals, with `Real.sqrt` / `Real.cos` as the `Elem` primitives -/
+theorem stdbase_scale_real (L : Cell ℝ) (l m n : Nat) :
+    (L.scale l m n).stdbase = (diag (l : ℝ) m n).mul L.stdbase := stdbase_scale L l m n
+
+/-- a concrete structure over ℚ used in the examples: one atom, payload `7` -/
+def exS : Stru ℚ Nat := ⟨⟨3, 4, 5, 90, 90, 90, Mat3.one⟩, [⟨⟨1 / 4, 1 / 2, 0⟩, 7⟩]⟩
+
+/-- the order of a two-step expansion really differs from the one-step order: for one atom and
+`(2,1,1)` twice the offsets along `a` come as `0,2,1,3` instead of `0,1,2,3` -/
+theorem two_step_order_differs :
+    ((supercellGen (supercellGen exS 2 1 1) 2 1 1).atoms.map (·.xyz.x)) = [1 / 16, 9 / 16, 5 / 16, 13 / 16] ∧
+    ((supercellGen exS 4 1 1).atoms.map (·.xyz.x)) = [1 / 16, 5 / 16, 9 / 16, 13 / 16] := by
+  constructor <;>
+    simp [supercellGen, exS, images, ijkList, image, List.range_succ, List.flatMap] <;> norm_num
+
+-- non-vacuity: the hypotheses `1 ≤ l, …` and `supercell … = .ok T` are satisfiable for every input
+example (S : Stru ℝ Nat) : ∃ T, supercell S [(2 : Nat), (1 : Nat), (3 : Nat)] = .ok T :=
+  ⟨_, runs S (by omega) (by omega) (by omega)⟩
+example : (supercellGen exS 2 1 3).atoms.length = 6 := by
+  simp [supercellGen, exS, images, length_ijkList]
+-- non-vacuity of `two_step`: all three runs exist
+example (S : Stru ℝ Nat) : ∃ T₁ T₂ T₁₂, supercell S [(2 : Nat), (1 : Nat), (3 : Nat)] = .ok T₁ ∧
+    supercell T₁ [(2 : Nat), (2 : Nat), (1 : Nat)] = .ok T₂ ∧
+    supercell S [((2 * 2 : Nat) : Int), ((1 * 2 : Nat) : Int), ((3 * 1 : Nat) : Int)] = .ok T₁₂ :=
+  ⟨_, _, _, runs S (by omega) (by omega) (by omega), runs _ (by omega) (by omega) (by omega),
+    runs S (by omega) (by omega) (by omega)⟩
+-- non-vacuity of the rejection clause: both sides occur
+example (S : Stru ℝ Nat) : ∃ e, supercell S [2, 0, 1] = .error e :=
+  ((rejects S [2, 0, 1]).1).2 (Or.inr ⟨0, by simp, by omega⟩)
+example (S : Stru ℝ Nat) : ∃ e, supercell S [2, 2] = .error e :=
+  ((rejects S [2, 2]).1).2 (Or.inl (by simp))
+-- non-vacuity of the heap theorems: a run exists
+example : ∃ h' T, supercellH (⟨exS.atoms⟩ : Heap ℚ Nat) ⟨exS.cell, [0]⟩ [2, 1, 1] = .ok (h', T) := by
+  simp [supercellH, HStru.value, Heap.read, exS, supercell_three, supercellGen]
+
 end DS.Props.C15
